@@ -13,6 +13,17 @@ import re
 from vlib import common
 
 LEVEL = "exploration"
+MANIFEST = {
+    "category": "exploration",
+    "technique": "runtime monitor: reference line-splitter + output contracts on the real line-buffer loop, exhaustive chunk schedules",
+    "text": "Drives the real CodeGenerator._generate_with_line_buffer and SupportGenerator._copy_header_using_line_pps with "
+            "every chunking of every text up to a small length over {a,space,tab,CR,LF}, random rich texts with schedules aimed "
+            "inside CRLF, and the chunk streams Jinja really produces for the built-in templates (tee'd at the real call site), "
+            "comparing the written stream with line-by-line application and with direct trim/limit/identity contracts. "
+            "Exhaustive inside the stated bounds, sampled beyond.",
+    "note": "Trusts the 20-line reference splitter (LF/CRLF only, the code's own terminator definition) and Python's str.isspace "
+            "as the widest whitespace definition.",
+}
 _NL = re.compile(r"\r\n|\n")
 
 
